@@ -198,7 +198,8 @@ def run_obs(job):
         skip = tuple(hdr_skip + (list(NAME_SENSITIVE) if renamed else []))
         return deviations(exp, cur_res["v"], langs, skip, compare_msg=not renamed, alt_exp=alt)
 
-    kinds = sorted({k for pl in plans for k in pl.kinds()})
+    # the byte-order mark goes last: its effect is tied to line 1 and must not be mixed up with insertions above line 1
+    kinds = sorted({k for pl in plans for k in pl.kinds()}, key=lambda k: (k in ("add_bom", "drop_bom"), k))
     renamed_any = "rename_locals" in kinds
     whole_shift = {f["name"]: E.shifter_between(e, pl) for f, e, pl in zip(prog["files"], empty, plans)}
     whole = deviations(expected_after(base["v"], names, whole_shift), new["v"], langs,
@@ -286,27 +287,49 @@ def unit_impl(lang: str, content: str):
     return res
 
 
-def filter_deviations(lang, c0, c1, tok0, sl):
-    """the four DRY block filters (regex / line-count tests on the raw lines of a block) on every 3-token window of the old
-    version and on the same window moved by the shift in the new version: names of the filters whose decision differs"""
+def filter_sweep(lang: str, text: str, tokens):
+    """the four DRY block filters (regex / line-count tests on the raw lines of a block: the `regex block filters` of the
+    property's anchors) under EVERY single insertion of a blank line / a comment line inside a window, trailing white space on
+    every line and re-indentation of the whole file: {filter name | edit kind: [window, decision before, decision after]}"""
     ensure_repo_on_path()
     from src.linters.dry.block_filter import create_default_registry
     reg = create_default_registry()
+    lines = text.split("\n")
+    toks = tokens or []
+    cm = E.COMMENT[lang]
     out = {}
-    toks = tok0 or []
+
+    def block(s, e):
+        return SimpleNamespace(file_path=Path("x"), start_line=s, end_line=e, snippet="", hash_value=0)
+
+    def decide(f, s, e, content):
+        try:
+            return bool(f.should_filter(block(s, e), content))
+        except Exception as ex:  # noqa: BLE001
+            return "raised " + type(ex).__name__
+    variants = {"trailing_ws": "\n".join(l + "  " if l.strip() else l for l in lines),
+                "reindent": "\n".join(E._lead(l) * 2 + l[len(E._lead(l)):] for l in lines)}
+    seen = set()
     for w in (2, 3, 4):
         for i in range(0, max(0, len(toks) - w + 1)):
             s, e = toks[i][0], toks[i + w - 1][0]
-            b0 = SimpleNamespace(file_path=Path("x"), start_line=s, end_line=e, snippet="", hash_value=0)
-            b1 = SimpleNamespace(file_path=Path("x"), start_line=sl(s), end_line=sl(e), snippet="", hash_value=0)
-            for f in reg._filters:
-                try:
-                    a, b = bool(f.should_filter(b0, c0)), bool(f.should_filter(b1, c1))
-                except Exception as ex:  # noqa: BLE001
-                    out.setdefault(f.name + ":raised", [s, e, repr(ex)[:80]])
-                    continue
-                if a != b:
-                    out.setdefault(f.name, [s, e, a, b])
+            if (s, e) in seen or e - s > 12:
+                continue
+            seen.add((s, e))
+            base = {f.name: decide(f, s, e, text) for f in reg._filters}
+            for kind, content in variants.items():
+                for f in reg._filters:
+                    d = decide(f, s, e, content)
+                    if d != base[f.name]:
+                        out.setdefault(f"{f.name}|{kind}", [s, e, base[f.name], d])
+            for g in range(s, e):           # a new line after line g, inside the block
+                ind = E._lead(lines[g]) if g < len(lines) else ""
+                for kind, new_line in (("insert_blank", ""), ("insert_comment", ind + cm + " note")):
+                    content = "\n".join(lines[:g] + [new_line] + lines[g:])
+                    for f in reg._filters:
+                        d = decide(f, s, e + 1, content)
+                        if d != base[f.name]:
+                            out.setdefault(f"{f.name}|{kind}", [s, e, g, base[f.name], d])
     return out
 
 
@@ -327,15 +350,15 @@ def run_unit(job):
     i0 = c04.impl_unit(c0, qs)
     i1 = c04.impl_unit(c1, [(sl(v), r) for v, r in qs])
     filters = {}
-    if job.get("single_kind") and lang in ("py", "ts", "js") and not c1.startswith(E.BOM):
-        filters = filter_deviations(lang, c0, c1, u0["tokens"], sl)
+    if job.get("sweep_filters") and lang in ("py", "ts", "js") and not c0.startswith(E.BOM) and "\r" not in c0:
+        filters = filter_sweep(lang, c0, u0["tokens"])
     nodes = []
     if len(u0["nodes"]) == len(u1["nodes"]):
         for a, b in zip(u0["nodes"], u1["nodes"]):
             nodes.append([a[0], a[1], a[2], b[1], b[2], a[3], b[3]])
     return {"ps0": ps0, "es": es, "ps1": ps1, "added": added, "docs0": u0["docs"], "docs1": u1["docs"],
             "tok0": u0["tokens"], "tok1": u1["tokens"], "nodes": nodes, "nodes_lost": len(u0["nodes"]) != len(u1["nodes"]),
-            "queries": [[v, r, a, b] for (v, r), a, b in zip(qs, i0, i1)], "filters": filters, "single_kind": job.get("single_kind")}
+            "queries": [[v, r, a, b] for (v, r), a, b in zip(qs, i0, i1)], "filters": filters}
 
 
 cstr = c04.cstr
@@ -565,6 +588,7 @@ def _base_job(prog):
 
 def unit_jobs(jobs, seed, cap):
     out = []
+    swept = set()
     for j, job in enumerate(jobs):
         prog = job["prog"]
         for f, pl in zip(prog["files"], job["plans"]):
@@ -579,9 +603,9 @@ def unit_jobs(jobs, seed, cap):
             qs = []
             for v in pick[:5]:
                 qs.append((v, r.choice(rules + QUERY_RULES[:2])))
-            kinds = pl.kinds()
-            out.append({"job": j, "file": f["name"], "lang": f["lang"], "plan": pl, "queries": qs,
-                        "single_kind": kinds[0] if len(kinds) == 1 else None})
+            fid = (prog["id"], f["name"])
+            out.append({"job": j, "file": f["name"], "lang": f["lang"], "plan": pl, "queries": qs, "sweep_filters": fid not in swept})
+            swept.add(fid)
     if len(out) > cap:
         r = rng_for(seed, PROP, "unit-cap")
         keep = [u for u in out if any(o[0] in ("trail_ff", "bom") for o in u["plan"].ops)]
@@ -692,9 +716,11 @@ def run(tier: str, seed: int, replay: str | None = None) -> int:
                            "program": _slim(jobs[uj["job"]]["prog"])})
             continue
         units.append((uj, u))
+        if uj.get("sweep_filters"):
+            chk.dist("unit:filter-sweep-files")
         for name, d in sorted((u.get("filters") or {}).items()):
-            key = f"dry-filter:{name}|{u['single_kind']}|decision|{uj['lang']}"
-            case = {"key": key, "window_and_decisions": d, "file": uj["file"], "plans": [uj["plan"].ops], "program": _slim(jobs[uj["job"]]["prog"])}
+            key = f"dry-filter:{name}|decision|{uj['lang']}"
+            case = {"key": key, "window_and_decisions": d, "file": uj["file"], "program": _slim(jobs[uj["job"]]["prog"])}
             chk.dist("unit:filter-deviation")
             if key in chk.known["known"]:
                 chk.known_finding(key, case)
